@@ -10,6 +10,7 @@ closed under watcher steps) accepts it, `reject …` with the state set it had w
   add c=5                         Add(ctx5) returned
   cancel                          Cancel() returned
   release                         the harness released the watcher it had parked at a hook
+  race e=1 c=5 | race e=1 cancel=1   context 1 ended concurrently with Add(ctx5) / Cancel(); either order
   obs quiet=1 park=0|1|2 pi=<i> done=0|1 size=<n> alive=0|1
                                   park: 0 not parked, 1 at pool.watch.afterWait(pi), 2 at pool.watch.beforeCancel
 After a `reject` every line up to the next `new` is answered `skip`.
@@ -47,6 +48,12 @@ def parseEvent (l : Line) : Option Event :=
   | "add" => (l.nat? "c").map Event.add
   | "cancel" => some Event.cancel
   | "release" => some Event.release
+  | "race" => do
+    let e ← l.nat? "e"
+    match l.nat? "c", l.nat? "cancel" with
+    | some c, _ => some (Event.race e (some c))
+    | none, some _ => some (Event.race e none)
+    | none, none => none
   | "obs" => do
     let quiet ← bool? l "quiet"
     let park ← l.nat? "park"
